@@ -2,7 +2,7 @@ use anyhow::Result;
 use core::panic;
 use heck::{ToShoutySnakeCase, ToUpperCamelCase};
 use std::{
-    collections::{BTreeSet, HashMap},
+    collections::{BTreeMap, BTreeSet},
     fmt::Write,
     mem,
     ops::Deref,
@@ -126,7 +126,7 @@ pub struct MoonBit {
     // dependencies between packages
     pkg_resolver: PkgResolver,
     // Wasm export name -> (exported function name, func)
-    export: HashMap<String, (String, String)>,
+    export: BTreeMap<String, (String, String)>,
 
     export_ns: Ns,
 
